@@ -1,16 +1,11 @@
 // Verification hooks. This file is compiled only under
 // `--cfg substrate_fixed_verif`; it adds nothing to a normal build.
 
-//! Hooks used by external verification harnesses: a loop-iteration counter
-//! for the transcendental functions and read-only access to two internal
-//! seams (wide division, the integer to-fixed helper).
+//! Hook used by external verification harnesses: a loop-iteration counter
+//! for the transcendental functions. It refers to nothing else in the crate.
 
 extern crate std;
 
-use crate::helpers::{FloatKind, IntHelper, Widest};
-use crate::float_helper::FloatHelper;
-use crate::wide_div::WideDivRem;
-use core::cmp::Ordering;
 use std::cell::Cell;
 
 std::thread_local! {
@@ -44,103 +39,4 @@ pub fn tick() {
     if n > LIMIT.with(|l| l.get()) {
         std::panic::panic_any(BudgetExceeded);
     }
-}
-
-/// Flattened copy of the crate-private `ToFixedHelper`.
-#[derive(Clone, Copy, Debug, PartialEq, Eq)]
-pub struct ToFixed {
-    /// `true` for `Widest::Negative`
-    pub negative: bool,
-    /// the 128 converted bits
-    pub bits: u128,
-    /// -1: bits were lost (result is below the value), 0: exact, 1: above
-    pub dir: i8,
-    /// overflow flag
-    pub overflow: bool,
-}
-
-fn flatten(h: crate::helpers::ToFixedHelper) -> ToFixed {
-    let (negative, bits) = match h.bits {
-        Widest::Unsigned(b) => (false, b),
-        Widest::Negative(b) => (true, b as u128),
-    };
-    let dir = match h.dir {
-        Ordering::Less => -1,
-        Ordering::Equal => 0,
-        Ordering::Greater => 1,
-    };
-    ToFixed {
-        negative,
-        bits,
-        dir,
-        overflow: h.overflow,
-    }
-}
-
-/// Outcome of the crate-private float classification.
-#[derive(Clone, Copy, Debug, PartialEq, Eq)]
-pub enum Float {
-    /// not a number
-    NaN,
-    /// infinite
-    Infinite {
-        /// sign
-        neg: bool,
-    },
-    /// finite
-    Finite {
-        /// sign
-        neg: bool,
-        /// conversion
-        conv: ToFixed,
-    },
-}
-
-fn flatten_kind(k: FloatKind) -> Float {
-    match k {
-        FloatKind::NaN => Float::NaN,
-        FloatKind::Infinite { neg } => Float::Infinite { neg },
-        FloatKind::Finite { neg, conv } => Float::Finite {
-            neg,
-            conv: flatten(conv),
-        },
-    }
-}
-
-macro_rules! seams {
-    ($($T:ident: $wide:ident, $tofix:ident;)*) => { $(
-        /// `divisor.div_rem_from(dividend)` of the crate-private `WideDivRem`.
-        pub fn $wide(divisor: $T, dividend: ($T, <$T as IntHelper>::Unsigned))
-            -> (($T, <$T as IntHelper>::Unsigned), $T)
-        {
-            divisor.div_rem_from(dividend)
-        }
-        /// `IntHelper::to_fixed_helper` of the crate-private helper trait.
-        pub fn $tofix(val: $T, src_frac: i32, dst_frac: u32, dst_int: u32) -> ToFixed {
-            flatten(IntHelper::to_fixed_helper(val, src_frac, dst_frac, dst_int))
-        }
-    )* };
-}
-
-seams! {
-    u8: wide_div_u8, to_fixed_u8;
-    u16: wide_div_u16, to_fixed_u16;
-    u32: wide_div_u32, to_fixed_u32;
-    u64: wide_div_u64, to_fixed_u64;
-    u128: wide_div_u128, to_fixed_u128;
-    i8: wide_div_i8, to_fixed_i8;
-    i16: wide_div_i16, to_fixed_i16;
-    i32: wide_div_i32, to_fixed_i32;
-    i64: wide_div_i64, to_fixed_i64;
-    i128: wide_div_i128, to_fixed_i128;
-}
-
-/// `FloatHelper::to_float_kind` for `f32`.
-pub fn float_kind_f32(val: f32, dst_frac: u32, dst_int: u32) -> Float {
-    flatten_kind(FloatHelper::to_float_kind(val, dst_frac, dst_int))
-}
-
-/// `FloatHelper::to_float_kind` for `f64`.
-pub fn float_kind_f64(val: f64, dst_frac: u32, dst_int: u32) -> Float {
-    flatten_kind(FloatHelper::to_float_kind(val, dst_frac, dst_int))
 }
